@@ -10,7 +10,10 @@ Search (independent of the model): "the value at (name, sample i) is what the ge
 identity is known by construction (full container key, exact unique name, register index), "every name stored in a file is
 registered, in file order" after each load (names include ones that begin with / contain a word special elsewhere in the format;
 .h5 data sets and .tdms waveform channels of one file agree in start only / step only / both / neither), completeness and order of simple
-requests, and all non-empty ordered subsets of the names of a file under three cache states.
+requests, and all non-empty ordered subsets of the names of a file under three cache states.  Files also hold names that differ
+only in letter case (each must resolve to itself: every name of a file is asked for on its own, uncached and cached, then all of them
+in reverse order), and files are re-written at the same path between sessions of the same process (same names with other values, or
+other names / length), each version being opened in a new database: what is returned is what the file holds now.
 """
 import itertools
 import os
@@ -30,17 +33,21 @@ STYLE = dict(ts="direct", tda="direct", bin="fancy", asc="fancy", dat="fancy", p
 FLOAT32 = ("ts", "tda", "bin")          # formats that store 4-byte reals
 F15 = "asc-first-row-missing"
 
-RULE = ("files: per format 3 (quick) / 5 (thorough) synthesised files with 1-5 series x 2-6 samples, names in non-alphabetical file "
+RULE = ("files: per format 4 (quick) / 6 (thorough) synthesised files with 1-5 series x 2-6 samples, names in non-alphabetical file "
         "order (incl. prefixes of each other, a space, unit brackets where the format allows; one fixed file per format and a third "
         "of the random ones with names that begin with / contain a word special elsewhere in the format: End1, ENDURANCE, Time, "
-        "uptime, fs2, Timer ...), value = 1000*file + 10*column + sample/4, per-series time arrays for .h5 (series of a file agreeing "
+        "uptime, fs2, Timer ...; one fixed file per format and a fifth of the random ones with 2-3 names that differ only in letter "
+        "case: Fx/FX/fx, .bin/.asc via key-file line ids ML01/ml01/Ml01), value = 1000*file + 10*column + sample/4, per-series time arrays for .h5 (series of a file agreeing "
         "in start only, in step only, in both, in neither) and .tdms (time channel per group, or waveform channels with their own "
         "zero / positive / negative start offset and increment); histories: 1-3 files per database, first op a load (30% read=True), then <= 5 ops drawn "
         "from further loads and get/geta/getm/getd/getl/getda with exact names, full keys, '*', prefix wildcards, '<file>/*', lists of "
         "1-4 patterns in random order with repeats, index lists with repeats, store on/off; plus per file ordered subsets of the names "
         "(all 64 for <= 4 names in thorough, 14 corner subsets in quick) by name and by index on a fresh, an eagerly read and a partly "
-        "cached database; non-trivial = request that is a proper subset, out of file order, repeats a key or mixes cached and "
-        "uncached keys; distinct by (file contents, history)")
+        "cached database; per file with keyword-like / case-variant names a sweep (each name alone by get/geta, all names reversed, "
+        "every second name, each name again cached); per format 2 (quick) / 10 (thorough) chains of 3 sessions in which the 1-2 files "
+        "of the database are re-written at the same path (same names and length with other values / other names and length / "
+        "unchanged) and opened in a new database of the same process; non-trivial = request that is a proper subset, out of file order, repeats a key or mixes cached and "
+        "uncached keys, or any request of a later session; distinct by (file contents, history)")
 
 SIMA_KEY = """
    R I F L E X  -  KEY FILE
@@ -88,13 +95,18 @@ Time_arr
 # ----------------------------------------------------------------------------------------------------------
 # file synthesis
 # ----------------------------------------------------------------------------------------------------------
-def sima_names(k):
+def sima_rows(k):
+    """default key-file rows (line id, segment, element), one response per row"""
+    return [["ML%02d" % (j + 1), 1 + j % 2, 1 + j // 2] for j in range(k)]
+
+
+def sima_names(k, rows=None):
     """the names `read_sima_names` derives from the key-file rows written by `sima_keyfile` (one response per row)"""
-    return ["ML%02d_Seg%03d_El%03d_Te" % (j + 1, 1 + j % 2, 1 + j // 2) for j in range(k)]
+    return ["%s_Seg%03d_El%03d_Te" % (ln, sg, el) for ln, sg, el in (rows or sima_rows(k))]
 
 
-def sima_keyfile(path, datafile, k, kind):
-    rows = "".join(" ML%02d      %8d  %8d  %8d  %16d\n" % (j + 1, 1 + j % 2, 1 + j // 2, 1, j + 3) for j in range(k))
+def sima_keyfile(path, datafile, k, kind, rows=None):
+    rows = "".join(" %-4s      %8d  %8d  %8d  %16d\n" % (ln, sg, el, 1, j + 3) for j, (ln, sg, el) in enumerate(rows or sima_rows(k)))
     with open(path, "w") as f:
         f.write(SIMA_KEY % dict(fn=datafile, kind=kind, rows=rows, last=k + 3))
 
@@ -132,13 +144,13 @@ def write_file(root, spec):
                 f.write(struct.pack("<i", 4 * (k + 1)))
                 f.write(struct.pack("<%df" % (k + 1), t[i], *[c[i] for c in cols]))
                 f.write(struct.pack("<i", 4 * (k + 1)))
-        sima_keyfile(os.path.join(root, "key_" + spec["base"] + ".txt"), spec["base"] + ".bin", k, "BINARY")
+        sima_keyfile(os.path.join(root, "key_" + spec["base"] + ".txt"), spec["base"] + ".bin", k, "BINARY", spec.get("sima_rows"))
     elif fmt == "asc":
         with open(path, "w") as f:
             f.write("# exported\n# time and responses column-wise\n")
             for i in range(n):
                 f.write("  ".join(num(v) for v in [t[i]] + [c[i] for c in cols]) + "\n")
-        sima_keyfile(os.path.join(root, "key_" + spec["base"] + ".txt"), spec["base"] + ".asc", k, "ASCII")
+        sima_keyfile(os.path.join(root, "key_" + spec["base"] + ".txt"), spec["base"] + ".asc", k, "ASCII", spec.get("sima_rows"))
     elif fmt == "dat":
         with open(path, "w") as f:
             f.write("# generated\n")
@@ -208,6 +220,10 @@ POOL_KEYWORD = dict(ts=["End1", "end_b", "ENDURANCE", "Bend", "a END"], tda=["En
                     tdms=["Timer", "time2", "wf_increment", "End1"])
 
 
+# names that differ only in the case of their letters are different names (e.g. local force Fx / global force FX)
+POOL_CASE = [["Fx", "FX", "fx"], ["ab", "Ab", "AB"], ["Tn", "tn", "TN"], ["yy", "YY", "yY"]]
+
+
 def gen_spec(rng, fi, fmt, k=None, n=None, variant=None):
     """contents of file number `fi`: names in file order, common time, columns, per-series time (h5/tdms).
     Variants 0, 1 and 2 have a fixed structure, later ones are random:
@@ -215,9 +231,11 @@ def gen_spec(rng, fi, fmt, k=None, n=None, variant=None):
             the same step but a different start; tdms: two groups, variant 0 both with a time channel (different time arrays),
             variant 1 the first with waveform properties (per channel: a positive and a negative start offset, different steps);
       2:    4 series of which the 1st and 3rd carry a name from POOL_KEYWORD (begins with / contains a word that is special
-            elsewhere in the format); tdms: both groups with waveform properties, offsets 0 and non-zero side by side."""
-    fixed = variant in (0, 1, 2)
-    k = k or (4 if variant == 2 else 3 if fixed else rng.choice([1, 2, 3, 3, 4, 5]))
+            elsewhere in the format); tdms: both groups with waveform properties, offsets 0 and non-zero side by side;
+      3:    4 series of which the 1st, 3rd and 4th have names that differ only in letter case (POOL_CASE; .bin/.asc: key-file line
+            ids ML01 / ml01 / Ml01 with the same segment and element); h5: all at top level; tdms: all three in the same group."""
+    fixed = variant in (0, 1, 2, 3)
+    k = k or (4 if variant in (2, 3) else 3 if fixed else rng.choice([1, 2, 3, 3, 4, 5]))
     n = n or rng.randint(2, 6)
     if fmt == "asc":
         n = max(n, 3)       # with 2 samples the row lost to F15 leaves one row, which np.loadtxt returns 1-D (IndexError; same root cause)
@@ -226,9 +244,20 @@ def gen_spec(rng, fi, fmt, k=None, n=None, variant=None):
     cols = [[1000.0 * (fi + 1) + 10.0 * (j + 1) + 0.25 * i for i in range(n)] for j in range(k)]
     own, wf = None, {}
 
+    casefile = variant == 3 or (not fixed and rng.random() < 0.2)
+    casepos = [p for p in dict.fromkeys([0, 2, k - 1]) if 0 <= p < k]
+
     def pick(pool):
-        """k names of the pool; variant 2 (and a third of the random files): keyword-like names at positions 0 and 2"""
+        """k names of the pool; variant 2 (and a third of the random files): keyword-like names at positions 0 and 2;
+        variant 3 (and a fifth of the random files): names differing only in case at positions 0, 2 and k-1"""
         kw = POOL_KEYWORD.get(fmt, [])
+        if casefile:
+            grp = rng.choice(POOL_CASE)
+            cs = rng.sample(grp, min(len(grp), len(casepos)))
+            out = rng.sample([nm for nm in pool if nm.lower() != grp[0].lower()], k)
+            for pos, nm in zip(casepos, cs):
+                out[pos] = nm
+            return out
         if not kw or not (variant == 2 or (not fixed and rng.random() < 0.35)):
             return rng.sample(pool, k)
         kws = rng.sample(kw, min(2, len(kw)))
@@ -238,13 +267,21 @@ def gen_spec(rng, fi, fmt, k=None, n=None, variant=None):
                 out[pos] = nm
         return out
 
+    rows = None
     if fmt in ("bin", "asc"):
-        names = sima_names(k)
+        if casefile:
+            # the line id of a key-file row is free text: rows that differ only in its case
+            rows = sima_rows(k)
+            for pos, f in zip(casepos[1:], rng.sample([str.lower, str.capitalize], 2)):
+                rows[pos] = [f(rows[casepos[0]][0])] + rows[casepos[0]][1:]
+        names = sima_names(k, rows)
     elif fmt == "h5":
         chosen = pick(POOL_RICH)
         grp = set(nm for nm in chosen if rng.random() < 0.4)
         if variant in (0, 1) and k >= 2:
             grp = set(chosen[:1])
+        if variant == 3:
+            grp = set()
         names = sorted(nm for nm in chosen if nm not in grp) + ["g1\\" + nm for nm in sorted(grp)]   # h5py lists links by name
     elif fmt == "tdms":
         chosen = pick(POOL_RICH)
@@ -254,6 +291,9 @@ def gen_spec(rng, fi, fmt, k=None, n=None, variant=None):
             cut, wf = k - 1, {"g1": variant == 1, "g2": False}
         if variant == 2:
             cut, wf = k - 2, {"g1": True, "g2": True}
+        if variant == 3:
+            chosen = [chosen[i] for i in (0, 2, 3, 1)]        # the case variants share group g1
+            cut = 3
         names = ["g1\\" + nm for nm in chosen[:cut]] + ["g2\\" + nm for nm in chosen[cut:]]
     elif fmt in ("csv", "pkl"):
         names = pick(POOL_RICH + ["T [kN/m]"])        # unit brackets with a '/' (not for h5/tdms: group separator)
@@ -293,7 +333,8 @@ def gen_spec(rng, fi, fmt, k=None, n=None, variant=None):
                 own.append([o + d * i for i in range(n)])
             else:
                 own.append(pergroup[g])
-    return dict(fmt=fmt, base="f%d_elmfor" % fi, dir="d%d" % (fi % 2), names=names, time=time, cols=cols, own=own, tdms_wf=wf, fi=fi)
+    return dict(fmt=fmt, base="f%d_elmfor" % fi, dir="d%d" % (fi % 2), names=names, time=time, cols=cols, own=own, tdms_wf=wf, fi=fi,
+                sima_rows=rows)
 
 
 def stored(spec, j):
@@ -392,6 +433,54 @@ def subset_histories(spec, quick, rng):
             out.append(pre + [[rng.choice(["getm", "getda", "getl"]), sel, store, True],
                               ["getm", ["ind", list(s)] if byname else ["names", [["key", 0, j] for j in s]], not store, True]])
     return out
+
+
+def sweep_history(spec, rng):
+    """every name of a file asked for on its own (uncached / cached), then all of them and every second one in reverse file order"""
+    names = spec["names"]
+    rev = list(range(len(names)))[::-1]
+    ops = [["load", 0, rng.random() < 0.3]]
+    for j in rev:
+        ops.append([rng.choice(["get", "geta"]), ["name", ["lit", names[j]]], rng.random() < 0.5])
+    ops.append([rng.choice(["getm", "getd", "getda"]), ["names", [["lit", names[j]] for j in rev]], False, True])
+    ops.append(["getl", ["names", [["lit", names[j]] for j in rev[::2]]], True, True])
+    for j in range(len(names)):
+        ops.append(["get", ["name", ["lit", names[j]]], True])
+    return ops
+
+
+def rewritten(rng, sp, fi, mode):
+    """contents for a later version of the file of `sp` at the SAME path: mode 'keep' = unchanged, 'values' = same names and length,
+    other time and data values, 'new' = other names / number of series / length"""
+    if mode == "keep":
+        return sp
+    if mode == "values":
+        new = dict(sp, fi=fi)
+        new["cols"] = [[1000.0 * (fi + 1) + 10.0 * (j + 1) + 0.25 * i for i in range(len(c))] for j, c in enumerate(sp["cols"])]
+        new["time"] = [v + 64.0 for v in sp["time"]]
+        if sp["own"]:
+            new["own"] = [[v + 64.0 for v in o] for o in sp["own"]]
+        return new
+    new = gen_spec(rng, fi, sp["fmt"])
+    return dict(new, base=sp["base"], dir=sp["dir"])
+
+
+def session_histories(rng, first, fi0):
+    """the files of `first` (1-2 specs) exist in 3 successive versions at the same paths; every version is opened in a new database
+    (same process) and queried.  Returns [(specs, ops)] per session."""
+    out = [(list(first), None)]
+    for s, modes in enumerate((["values", "keep"], ["new", "values"])):
+        if rng.random() < 0.5:
+            modes = modes[::-1]
+        out.append(([rewritten(rng, sp, fi0 + 2 * s + i, modes[i]) for i, sp in enumerate(out[-1][0])], None))
+    res = []
+    for sps, _ in out:
+        ops = gen_history(rng, sps, maxops=5)
+        pending = [i for i in range(len(sps)) if not any(op[0] == "load" and op[1] == i for op in ops)]
+        ops += [["load", i, rng.random() < 0.3] for i in pending]
+        ops.append(["getm", ["names", None], rng.random() < 0.5, True])
+        res.append((sps, ops))
+    return res
 
 
 def encode(specs, paths, ops):
@@ -676,7 +765,7 @@ def run(chk):
     root = tempfile.mkdtemp(prefix="qv01_")
     try:
         # ---- files
-        nvar = 3 if chk.quick else 5
+        nvar = 4 if chk.quick else 6
         specs, paths = [], []
         for v in range(nvar):
             for fmt in FORMATS:
@@ -688,8 +777,17 @@ def run(chk):
         byfmt = {fmt: [i for i, sp in enumerate(specs) if sp["fmt"] == fmt] for fmt in FORMATS}
         # ---- histories: (file ids, ops)
         hist = []
-        for c in core.load_corpus("C01"):
-            hist.append(("corpus", c["specs"], None, c["ops"]))
+        chains = []
+        for ci, c in enumerate(core.load_corpus("C01")):
+            if c.get("prior"):
+                # a chain of sessions on files re-written at the same paths
+                croot, prior = os.path.join(root, "corpus_chain%d" % ci), []
+                for ses in list(c["prior"]) + [dict(specs=c["specs"], ops=c["ops"])]:
+                    pths = [os.path.join(croot, sp.get("dir", ""), sp["base"] + "." + sp["fmt"]) for sp in ses["specs"]]
+                    chains.append(("corpus", ses["specs"], pths, ses["ops"], dict(root=croot, prior=list(prior))))
+                    prior.append(dict(specs=ses["specs"], ops=ses["ops"]))
+            else:
+                hist.append(("corpus", c["specs"], None, c["ops"]))
         nh = 40 if chk.quick else 500
         for fmt in FORMATS:
             for _ in range(nh):
@@ -703,15 +801,39 @@ def run(chk):
             for i in (byfmt[fmt][:1] if chk.quick else byfmt[fmt]):
                 for ops in subset_histories(specs[i], chk.quick, rng):
                     hist.append(("subsets", [specs[i]], [paths[i]], ops))
+        # every name of a file on its own, then together in reverse order (files with keyword-like / case-variant names first)
+        for fmt in FORMATS:
+            for i in (byfmt[fmt][2:4] if chk.quick else byfmt[fmt]):
+                hist.append(("sweep", [specs[i]], [paths[i]], sweep_history(specs[i], rng)))
         # corpus entries bring their own file contents: write them
         for n, (kind, sps, pths, ops) in enumerate(hist):
             if pths is None:
                 croot = os.path.join(root, "corpus%d" % n)
                 hist[n] = (kind, sps, [write_file(croot, sp) for sp in sps], ops)
-        lines = [encode(sps, pths, ops) for (_, sps, pths, ops) in hist]
+        hist = [h + (None,) for h in hist] + chains
+        # files that are re-written at the same path between sessions (a new database per session, same process): the files of a
+        # session are written immediately before it is executed; `prior` = the earlier sessions, which are part of the input
+        nsess = 2 if chk.quick else 10
+        fi_next = len(specs)
+        for fmt in FORMATS:
+            for r in range(nsess):
+                sroot = os.path.join(root, "sess_%s_%d" % (fmt, r))
+                first = [gen_spec(rng, fi_next, fmt, variant=None)]
+                if r % 2:
+                    first.append(gen_spec(rng, fi_next + 1, rng.choice(FORMATS), variant=None))
+                prior = []
+                for sps, ops in session_histories(rng, first, fi_next + 2):
+                    pths = [os.path.join(sroot, sp["dir"], sp["base"] + "." + sp["fmt"]) for sp in sps]
+                    hist.append(("session%d" % len(prior), sps, pths, ops, dict(root=sroot, prior=list(prior))))
+                    prior.append(dict(specs=sps, ops=ops))
+                fi_next += 6
+        lines = [encode(sps, pths, ops) for (_, sps, pths, ops, _) in hist]
         outs = drv.run(lines)
-        for (kind, sps, pths, ops), reply in zip(hist, outs):
+        for (kind, sps, pths, ops, sess), reply in zip(hist, outs):
             inp = dict(specs=sps, ops=ops)
+            if sess is not None:
+                inp["prior"] = sess["prior"]
+                assert [write_file(sess["root"], sp) for sp in sps] == pths
             chk.count("rb.run:" + kind)
             if not reply.startswith("ok "):
                 chk.disagree("rb.run", inp, reply, "(model did not accept the request)")
@@ -723,7 +845,7 @@ def run(chk):
             for op, (mout, _) in zip(ops, model):
                 chk.dist("op:" + op[0])
                 chk.dist("out:" + (mout if isinstance(mout, str) else "series"))
-                if isinstance(mout, list) and nontrivial(op, sps):
+                if isinstance(mout, list) and (nontrivial(op, sps) or (sess is not None and sess["prior"])):
                     chk.nontriv((tuple(sp["fi"] for sp in sps), repr(ops)))
             if kind == "random" and 3 <= len(ops) <= 4 and len(chk.samples) < 4:
                 chk.sample(dict(files=[(sp["fmt"], sp["names"]) for sp in sps], ops=ops,
@@ -737,6 +859,11 @@ def replay(rp):
     root = tempfile.mkdtemp(prefix="qv01r_")
     try:
         specs, ops = inp["specs"], inp["ops"]
+        for n, pr in enumerate(inp.get("prior") or []):
+            # earlier sessions of the same process: other versions of the files at the same paths, each opened in its own database
+            ppaths = [write_file(root, sp) for sp in pr["specs"]]
+            _, pf = execute(pr["specs"], ppaths, pr["ops"], inp=dict(specs=pr["specs"], ops=pr["ops"]))
+            print("(earlier session %d on the same paths: %d failing clause(s))" % (n, len(pf)))
         paths = [write_file(root, sp) for sp in specs]
         model = None
         try:
